@@ -211,7 +211,7 @@ def run_l1(ctx):
                     ic = bytesgen.interesting_cuts(data)
                     segs += [(c,) for c in ic] + [(a, b) for a in ic for b in ic if a < b]
                     segs += [(c,) for c in range(1, n, max(1, n // 40))]
-                nr = ctx.pick(60, 2000)
+                nr = ctx.pick(60, 10000)
                 segs += [bytesgen.random_cuts(rng, n) for _ in range(nr)]
                 segs += [tuple(range(1, n))] if n <= 400 else []
                 exhaustive = False
@@ -278,7 +278,7 @@ def run_l2(ctx):
         for backend in ("pyopenssl", "stdlib"):
             base = None
             variants = [("whole", None, False), ("coalesced", None, True)]
-            nvar = ctx.pick(4, 40)
+            nvar = ctx.pick(4, 120)
             for _ in range(nvar):
                 variants.append(("cipher-cuts", rng.choice([1, 2, 3, 5, 7, 13, 64]), rng.random() < 0.5))
             variants.append(("plain-pieces", None, False))
